@@ -34,6 +34,7 @@ type Obligation struct {
 	Trivial bool
 	// for replay
 	Inputs map[string]string
+	ex     *Exec
 }
 
 // backingInfo: the array location a slice value was taken from (x[lo:hi] of *[N]T).
@@ -116,7 +117,7 @@ func (x *Exec) oblige(s *State, kind, name string, goal *Term, tags []string, po
 		return
 	}
 	o := &Obligation{Name: x.uniq(name), Func: shortFn(fnKey(x.top)), Tags: tags, Kind: kind, Goal: goal, PC: append([]*Term{}, s.pc...),
-		Pos: x.posOf(pos), Path: append([]string{}, s.path...), Expect: "unsat", Clause: clause}
+		Pos: x.posOf(pos), Path: append([]string{}, s.path...), Expect: "unsat", Clause: clause, ex: x}
 	if goal.IsTrue() {
 		o.Trivial = true
 		o.Status = "discharged"
@@ -754,7 +755,7 @@ func (x *Exec) frameCheckCond(s *State, fr *Frame, l *Loc, pos token.Pos, in ssa
 		x.frameCheck(s, fr, l.Ref, l.RootT, pos, in)
 		return
 	}
-	if len(x.spec.Frame) == 0 {
+	if len(x.spec.Frame) == 0 && len(x.w.PointeeGuards) == 0 {
 		return
 	}
 	t := s.clone()
@@ -762,9 +763,43 @@ func (x *Exec) frameCheckCond(s *State, fr *Frame, l *Loc, pos token.Pos, in ssa
 	x.frameCheck(t, t.top(), l.Ref, l.RootT, pos, in)
 }
 
+// pointeeGuardCheck: an object of a type declared `guarded pointee T by Owner.mu` is written (store or callee
+// assigns) only while the receiver's mutex is write-held, unless the object was allocated in this call and is
+// still private (allocated after the last lock acquisition is approximated by: allocated during this call).
+func (x *Exec) pointeeGuardCheck(s *State, fr *Frame, ref *Term, t types.Type, pos token.Pos, in ssa.Instruction) {
+	if len(x.w.PointeeGuards) == 0 {
+		return
+	}
+	g := x.w.PointeeGuards[x.w.heapKey(t)]
+	if g == nil || len(x.top.Params) == 0 {
+		return
+	}
+	rp := x.top.Params[0]
+	pt, ok := types.Unalias(rp.Type()).Underlying().(*types.Pointer)
+	if !ok || !types.Identical(pt.Elem(), g.Owner) {
+		return
+	}
+	recv := x.params[rp.Name()]
+	mt := x.w.StructFields(g.Owner)[g.MutexField].Type
+	muIdx := -1
+	for i, f := range x.w.StructFields(mt) {
+		if f.Name == "$mu" {
+			muIdx = i
+		}
+	}
+	if muIdx < 0 || recv.Term == nil {
+		return
+	}
+	ml := &Loc{Ref: recv.Term, RootT: g.Owner, Path: []PathStep{{Field: g.MutexField, FT: mt}, {Field: muIdx, FT: types.Typ[types.Int]}}}
+	mu := x.readLoc(s, ml).Term
+	name := fmt.Sprintf("lock.pointee.%s@%s#%s", g.Name, shortFn(fnKey(fr.fn)), x.siteOrdinal(fr.fn, in))
+	x.oblige(s, "lock.write", name, Eq(mu, IntT(2)), g.Tags, posOfInstr(in, pos), "shared object written with the write lock held")
+}
+
 // frameCheck: a store to a heap object must target an object allocated during this call or a
 // location listed in the contract's assigns clause.
 func (x *Exec) frameCheck(s *State, fr *Frame, ref *Term, t types.Type, pos token.Pos, in ssa.Instruction) {
+	x.pointeeGuardCheck(s, fr, ref, t, pos, in)
 	if len(x.spec.Frame) == 0 {
 		return
 	}
@@ -1287,7 +1322,7 @@ func (x *Exec) checkPost(s *State, fr *Frame, rs []Value, in *ssa.Return) {
 		func() {
 			defer func() {
 				if r := recover(); r != nil {
-					if se, ok := r.(specErr); ok && strings.Contains(se.msg, "unknown identifier") {
+					if se, ok := r.(specErr); ok && (strings.Contains(se.msg, "unknown identifier") || strings.Contains(se.msg, "no field ")) {
 						goal = nil
 						return
 					}
